@@ -124,7 +124,7 @@ Qed.
 From MV Require Import Model.H2Frame Proofs.H2FrameStable Proofs.H2FrameRT.
 
 (* c18_frame_roundtrip: for every frame the writers (x/net's Framer.WriteXxx, MFramer.writeXxx) can emit -
-   all ten types with padding / priority / flags, and unknown types - in every reader state that admits the
+   all ten types with padding / priority / flags, and unknown types - in every reader state that accepts the
    frame (checkFrameOrder), followed by ANY bytes: the reader returns exactly that frame and its length.
    Bounds: the 24-bit length field and the reader's maxReadSize. *)
 Theorem c18_frame_roundtrip : forall a last last' mx rest,
@@ -273,7 +273,7 @@ Proof. exact split_strict_unterminated. Qed.
 Print Assumptions c18_header_block_fragmentation_refuted_with_strict_comparison.
 
 (* sender and reader composed: the frames writeHeaders emits for the header block of ANY valid representations,
-   split at ANY max frame size the reader admits, are read back as one MetaHeadersFrame with the encoded fields *)
+   split at ANY max frame size the reader accepts, are read back as one MetaHeadersFrame with the encoded fields *)
 Theorem c18_sent_header_block_read_back : forall st sid es mx rs t' fs rest sk',
   fs_last st = 0 -> sid_ok sid ->
   1 <= mx -> mx < 16777216 -> mx <= fs_max st ->
